@@ -22,6 +22,10 @@ func main() {
 		fmt.Print(c02.Dump(string(src)))
 		return
 	}
+	if len(os.Args) > 2 && os.Args[1] == "plan" {
+		fmt.Print(c02.Plan(os.Args[2]))
+		return
+	}
 	if len(os.Args) > 2 && os.Args[1] == "case" {
 		fmt.Print(c02.EvalDesc(os.Args[2]))
 		return
